@@ -6,6 +6,7 @@ passed explicitly, sys.stdout swapped under the call, and writes that fail at th
 write(). Reference: ConfigModel (a dict) gives the effective settings; the expected text is
 the real pipeline below the merging layer with nothing defaulted.
 """
+import abc
 import errno
 import sys
 import warnings
@@ -32,6 +33,7 @@ ASSUMPTIONS = ['colour is switched off with colorful.disable() for cpprint, as t
 
 P = PP = None
 VALUES = []
+REPR_CAPABLE = []
 DOM = dict(indent=[1, 2, 4, 8], width=[1, 10, 20, 40, 79, 120], ribbon_width=[1, 10, 40, 71, 200],
            depth=[None, 0, 1, 2, 5], max_seq_len=[1, 2, 3, 1000],
            sort_dict_keys=[False, True])
@@ -46,6 +48,33 @@ FAULTS = ['EPIPE', 'ENOSPC', 'closed']
 class Reg:
     def __init__(self, v):
         self.v = v
+
+
+class Shape(abc.ABC):
+    """has a registered printer; Circle is only a *virtual* subclass (Shape.register)"""
+
+
+class Circle:
+    def __init__(self, r, label):
+        self.r = r
+        self.label = label
+
+
+class Reentrant:
+    """its printer returns a contextual document whose evaluator calls pformat again at layout time"""
+
+    def __init__(self, inner):
+        self.inner = inner
+
+
+class OldStyle:
+    """unregistered; its __repr__ itself calls pformat (re-entrancy while the document is built)"""
+
+    def __init__(self, x):
+        self.x = x
+
+    def __repr__(self):
+        return 'OldStyle(%s)' % P.pformat(self.x, width=200)
 
 
 class SimStream:
@@ -88,6 +117,20 @@ def setup():
     @P.register_pretty(Reg)
     def pr(v, ctx):
         return P.pretty_call(ctx, Reg, v.v)
+    Shape.register(Circle)
+    Circle.__repr__ = P.pretty_repr
+
+    @P.register_pretty(Shape)
+    def pshape(v, ctx):
+        return P.pretty_call(ctx, type(v), radius=v.r, label=v.label)
+
+    from prettyprinter.doc import contextual
+
+    @P.register_pretty(Reentrant)
+    def preent(v, ctx):
+        def evaluator(indent, column, page_width, ribbon_width):
+            return 'Reentrant<%s>' % P.pformat(v.inner, width=200).replace('\n', ' ')
+        return contextual(evaluator)
     VALUES[:] = [
         {'b': [1, 2, 3], 'a': ('x' * 30, 2.5), 'c': {3}},
         [[[[1, [2]]]]],
@@ -101,7 +144,12 @@ def setup():
         b'bytes ' * 20,
         {'set': {5, 6, 7, 8}, 'fs': frozenset([1]), 'e': []},
         [{'y': 1, 'x': 2}] * 3,
+        Circle(2, 'l' * 40),
+        {'shapes': [Circle(1, 'a'), Circle([1, [2, [3]]], 'b')]},
+        [Reentrant([1, 2, 3]), {'k': Reentrant({'b': 1, 'a': [2, 3]})}],
+        {'old': OldStyle([1, 2, {'z': 1, 'a': 2}]), 'more': [OldStyle('x')] * 2},
     ]
+    REPR_CAPABLE[:] = [i for i, v in enumerate(VALUES) if isinstance(v, (Reg, Circle))]
 
 
 def generate(rng, idx, tier):
@@ -119,7 +167,7 @@ def generate(rng, idx, tier):
             ops.append(['get'])
         else:
             entry = rng.choice(ENTRIES)
-            v = rng.randrange(len(VALUES) if VALUES else 12)
+            v = rng.randrange(len(VALUES) if VALUES else 16)
             explicit = {s: rng.choice(DOM[s]) for s in KEYS if rng.random() < p_explicit}
             end = rng.choice(ENDS)
             if k == 'faulty':
@@ -134,8 +182,10 @@ def generate(rng, idx, tier):
 
 def _expected(v, eff):
     try:
-        from prettyprinter.render import default_render_to_str
-        return default_render_to_str(P.python_to_sdocs(v, **eff)), 'pipeline'
+        # the public pipeline below the merging layer, rendered into our own stream
+        st = SimStream()
+        P.default_render_to_stream(st, P.python_to_sdocs(v, **eff))
+        return st.text(), 'pipeline'
     except (ImportError, TypeError, AttributeError):
         return P.pformat(v, **eff), 'all_explicit_pformat'
 
@@ -192,8 +242,8 @@ def execute(spec):
             v = VALUES[vi]
             explicit = dict(explicit)
             if entry == 'pretty_repr':
-                if not isinstance(v, Reg):
-                    v = VALUES[5 + (vi % 2)]
+                if vi not in REPR_CAPABLE:
+                    v = VALUES[REPR_CAPABLE[vi % len(REPR_CAPABLE)]]
                 explicit = {}
             eff = dict(model)
             eff.update(explicit)
